@@ -13,6 +13,7 @@ from ..index import AnalysisError, dotted
 from ..astutil import text, short, endswith, calls_in, walk_no_nested, names_loaded
 from ..dataflow import DefUse
 from .. import events as E
+from ._h_A import canonicalise
 from ._h_A import (FactReach, Facts, nodes_of_stmts, nodes_for, kwarg, is_const, stmts_in,
                    attr_sites, obj_sites, inliner, expander, bind_call, call_arg, real_loops,
                    Owners, followed, returns_of, value_at, deref_at, derefs_at, reaching_defs,
@@ -45,6 +46,7 @@ SLOCKS = "self._locked_cells"
 
 
 def check(run, repo, tier):
+  canonicalise(repo)
   w = World(repo)
   sc = Scan(w)
   r1_lock_pairing(run, w, sc)
